@@ -9,6 +9,7 @@ import math
 
 from integral import expr
 from integral.conditions import Conditions
+from integral.interval import Interval
 
 
 def collect_pairs(ps):
